@@ -4,12 +4,25 @@ Part T (tables, exhaustive): the discriminant sets of KeyCode / OsCode are parse
   working tree, from_u16 / as_u16 / the From conversions are called for all 65536 u16 values, every key name
   found in the source of str_to_oscode is resolved by the real function and observed in every configuration
   position through the real parser; TLC checks spec/KeyTables.tla over these generated constants.
+  Names under deflocalkeys: every name (all built-in names redefined one at a time, the deflocalkeys-linux blocks of
+  docs/locales.adoc, random blocks mixing redefined built-in names / the overridable default names / new names, with
+  swaps and shared targets) is observed through the real parser in every position that takes a key name (defsrc, layer
+  action, fork / switch key / key-history / input / macro / unmod / release-key / caps-word / one-shot / modifier
+  prefix, deflayermap input, all-except, defoverrides input and output, defseq, defchordsv2), the configurations parsed
+  in one process in shuffled order; KeyTables.T_LkPositions: the code is a function of (name, block) only.
 Part I (identity pipeline): one press/release of every code through the real stepper under configurations that
   leave keys to themselves; traces validated by TLC against the P_C11 monitor.
+Part P (output paths): one configuration per output path with a no-op key as the key that path emits (macro items,
+  multi / modifier prefix, tap-hold, one-shot, tap-dance, fork / switch, chords v1 / v2, override outputs, sequences in
+  the three input modes (completed, cancelled, timed out; leader forms; always-on), dynamic macro replay, virtual keys
+  (incl. operated from outside), rpt, unmod / unshift, layers / release-key, caps-word, nop codes as physical input,
+  zippychord output mapping): all tap words of length <= 3 over the keys, holds, overlaps and random histories are
+  recorded from the real code and judged by TLC against P_C11 in paths mode (I2 only); the small members are explored
+  exhaustively with L1 || P_C11 (mc.check_instance, every transition replayed on the code).
 Part S (intercept set): random defsrc / deflayermap / process-unmapped-keys lists; Cfg.mapped_keys of the real
   parser is compared by TLC with P_C11.Intercept computed from the text-level description.
 """
-import re, threading
+import re, threading, itertools
 from props.common import *
 from props.c13 import par_validate, tlc_ok
 
@@ -474,7 +487,8 @@ CHECK_DEADLOCK FALSE
 def check_tables(wd, g, lkrows=()):
     t = g["t"]
     conv = {str(r["c"]): {k: r[k] for k in r if k != "c"} for r in t["conv"]}
-    lk = [{"n": r["n"], "lk": r["lk"], "obs": [{"p": p, "v": r["obs"][p]} for p in POSITIONS]} for r in lkrows]
+    lk = [{"i": i + 1, "n": r["n"], "lk": r["lk"], "obs": [{"p": p, "v": r["obs"][p]} for p in POSITIONS]}
+          for i, r in enumerate(lkrows)]
     text = MC_T % dict(kc=tla_val(g["kc"]), osc=tla_val(g["osc"]),
                        fromfn=tla_val({str(c): v for c, v in t["from"]}, "intmap"), none=t["none_count"],
                        conv=tla_val(conv, "intmap"), names=tla_val(t["names"]), pos=tla_val(g["pos"]),
@@ -536,6 +550,135 @@ def identity_jobs(tier, rng, g):
             scripts.append([["d", a], ["t", 1], ["d", b], ["t", 1], ["u", a], ["u", b], ["t", 3]])
         jobs.append({"cfg": cfg, "params": params, "tag": name, "scripts": scripts})
     return jobs, params
+
+
+# ------------------------------------------------------------------ part P: no-op codes on every output path
+# The configurations send a no-op key down one output path each; P_C11 in "paths" mode (I2 only) judges what the real
+# code wrote.  A small subset is also explored exhaustively with L1 (mc.check_instance: TLC over Kanata.tla || P_C11,
+# every transition replayed on the code).
+PATH_PARAMS = {"paths": 1, "btn": [], "wheel": [], "pseudo": []}
+ZIPPY_NOTE = " [zippychord output-character-mappings: the character is mapped to a no-op key]"
+
+
+def path_family(tier, rng):
+    """[{name, cfg, keys (names), T (a timeout of the configuration), files, fk (number of virtual keys), mc}]"""
+    off = rng.randrange(10)
+    cnt = [0]
+
+    def N():
+        cnt[0] += 1
+        return "nop%d" % ((off + cnt[0] * 3) % 10)      # 3 is coprime to 10: all ten names are used, 0 and 9 included
+    F = []
+
+    def add(name, keys, layer, extra="", T=5, defcfg="", files=None, fk=0, mc=None, src=None):
+        cfg = ("(defcfg %s)\n" % defcfg if defcfg else "") + "(defsrc %s)\n(deflayer l0 %s)\n%s" % (src or " ".join(keys), layer, extra)
+        F.append({"name": name, "cfg": cfg, "keys": keys, "T": T, "files": files or {}, "fk": fk, "mc": mc})
+    n = [N() for _ in range(10)]
+    add("key", ["a", "b"], "%s %s" % (n[0], n[9]), mc={"qmax": 2})
+    add("macro", ["a", "b", "c"], "(macro %s a %s) (macro-release-cancel %s 4 %s b) (macro-repeat %s 3)" % (N(), N(), N(), N(), N()), T=4)
+    add("macro_mc", ["a", "b"], "(macro %s a %s) (multi lsft %s)" % (N(), N(), N()), mc={"qmax": 2})
+    add("multi", ["a", "b", "c", "lsft"], "(multi %s a) S-%s (multi lsft %s) lsft" % (N(), N(), N()))
+    add("taphold", ["a", "b", "c", "d"], "(tap-hold 5 5 %s %s) (tap-hold-press 5 5 %s %s) (tap-hold-release 5 5 a %s) d" %
+        (N(), N(), N(), N(), N()), mc=None)
+    add("taphold_mc", ["a", "b"], "(tap-hold 3 3 %s %s) b" % (N(), N()), T=3, mc={"qmax": 2} if tier != "quick" else None)
+    add("oneshot", ["a", "b", "c"], "(one-shot 8 %s) (one-shot-release 8 %s) c" % (N(), N()), T=8)
+    add("oneshot_mc", ["a", "b"], "(one-shot 4 %s) b" % N(), T=4, mc={"qmax": 2} if tier != "quick" else None)
+    add("tapdance", ["a", "b", "c"], "(tap-dance 5 (%s %s a)) (tap-dance-eager 5 (%s %s)) c" % (N(), N(), N(), N()))
+    x = N()
+    add("fork_switch", ["a", "b", "c", "lsft"],
+        "(fork %s %s (lsft)) %s (switch ((key-history %s 1)) %s break (%s) a break () %s break) lsft" % (N(), N(), x, x, N(), x, N()))
+    add("chords_v1", ["a", "b", "c"], "(chord g a) (chord g b) c", "(defchords g 5 (a) %s (b) %s (a b) %s)\n" % (N(), N(), N()))
+    add("chords_v2", ["a", "b", "c"], "a b c", "(defchordsv2 (a b) %s 5 all-released () (b c) (macro %s a) 5 first-release ())\n" % (N(), N()),
+        defcfg="concurrent-tap-hold yes")
+    x = N()
+    add("overrides", ["a", "b", "c", "lsft"], "a b %s lsft" % x, "(defoverrides (a) (%s) (lsft b) (%s) (%s) (b))\n" % (N(), N(), x))
+    for mode, tag in (("hidden-delay-type", "hd"), ("hidden-suppressed", "hs"), ("visible-backspaced", "vb")):
+        x, y = N(), N()
+        add("seq_" + tag, ["l", "n", "c", "m"], "sldr %s c %s" % (x, y),
+            "(defvirtualkeys v1 (macro h %s i))\n(defseq v1 (%s c %s))\n" % (N(), x, y), T=6,
+            defcfg="sequence-input-mode %s sequence-timeout 6" % mode)
+    x = N()
+    add("seq_hd_mc", ["l", "n", "c"], "sldr %s c" % x, "(defvirtualkeys v1 x)\n(defseq v1 (%s c %s))\n" % (x, x), T=3,
+        defcfg="sequence-input-mode hidden-delay-type sequence-timeout 3",
+        mc={"qmax": 2, "constraint": "SeqBound", "extra_defs": "SeqBound == Len(K.sq.raw) <= 3"})
+    x, y = N(), N()
+    add("seq_leader_form", ["l", "n", "c", "m"], "(sequence 6 hidden-delay-type) %s c %s" % (x, y),
+        "(defvirtualkeys v1 (macro h i))\n(defseq v1 (%s %s c))\n" % (x, y), T=6,
+        defcfg="sequence-input-mode visible-backspaced sequence-timeout 30")
+    x = N()
+    add("seq_always_on", ["n", "c", "m"], "%s c m" % x, "(defvirtualkeys v1 (macro h i))\n(defseq v1 (%s %s c))\n" % (x, x), T=6,
+        defcfg="sequence-input-mode hidden-delay-type sequence-timeout 6 sequence-always-on yes")
+    add("dynmacro", ["a", "b", "c", "d"], "(dynamic-macro-record 1) dynamic-macro-record-stop (dynamic-macro-play 1) %s" % N(), T=4)
+    add("vkeys", ["a", "b", "c", "d"], "(on-press tap-vkey v1) (hold-for-duration 5 v2) (on-release tap-vkey v1) (on-idle 5 tap-vkey v2)",
+        "(defvirtualkeys v1 %s v2 (macro %s a))\n" % (N(), N()), fk=2)
+    add("repeat", ["a", "b", "c"], "%s rpt rpt-any" % N())
+    add("unmod", ["a", "b", "lsft"], "(unmod %s) (unshift %s) lsft" % (N(), N()))
+    add("layers", ["a", "b", "c"], "(layer-while-held l1) %s (release-key %s)" % (n[3], n[3]), "(deflayer l1 _ _ %s)\n" % N())
+    add("capsword", ["a", "b", "c"], "(caps-word-custom 20 (%s a) (%s)) %s %s" % (n[1], n[2], n[1], n[2]), T=20)
+    add("src_nop", [n[4], n[5], "a"], "_ (tap-hold 5 5 %s a) (layer-while-held l1)" % n[4], "(deflayer l1 use-defsrc _ _)\n")
+    add("zippy", ["a", "b", "c"], "a b c", "(defzippy dict on-first-press-chord-deadline 20 output-character-mappings (! %s))\n" % N(),
+        T=20, files={"dict": "ab\t!x\n"})
+    return F
+
+
+def tap_words(keys, T, maxlen):
+    """every word of <= maxlen taps over the keys (short taps, the last one followed by a wait beyond the timeout)"""
+    out = []
+    for ln in range(1, maxlen + 1):
+        for w in itertools.product(keys, repeat=ln):
+            s = []
+            for k in w:
+                s += [["d", k], ["t", 1], ["u", k], ["t", 1]]
+            out.append(s + [["t", T + 6]])
+    return out
+
+
+def path_jobs(tier, rng, fam, code_of):
+    C = code_of.__getitem__
+    jobs = []
+    for f in fam:
+        keys = [C(k) for k in f["keys"]]
+        T = f["T"]
+        scripts = tap_words(keys, T, 3 if len(keys) <= 4 else 2)
+        # holds across the timeout, overlaps
+        for a in keys:
+            scripts.append([["d", a], ["t", T + 3], ["u", a], ["t", T + 3]])
+            for b in keys:
+                if a != b:
+                    scripts.append([["d", a], ["t", 1], ["d", b], ["t", 1], ["u", a], ["t", 1], ["u", b], ["t", T + 6]])
+                    scripts.append([["d", a], ["t", T + 1], ["d", b], ["t", 1], ["u", b], ["t", 1], ["u", a], ["t", T + 6]])
+        for _ in range(25 if tier == "quick" else 400):
+            s = rand_history(rng, keys, rng.randint(4, 30 if tier == "quick" else 100),
+                             [0, 1, 1, 1, 2, max(T - 1, 0), T, T + 1, 2 * T + 3], tail=T + 12, repeat_p=0.15)
+            if f["fk"]:
+                for _ in range(rng.randint(1, 4)):
+                    s.insert(rng.randrange(len(s) + 1), ["fk", rng.randrange(f["fk"]), rng.choice(["press", "release", "tap", "toggle"])])
+            scripts.append(s)
+        jobs.append({"cfg": f["cfg"], "params": PATH_PARAMS, "tag": "p:" + f["name"], "scripts": scripts, "files": f["files"]})
+    return jobs
+
+
+def path_instances(res, tier, fam, wd, code_of):
+    """binding D + B for the small members of the family; returns the witness jobs (monitor rejections at model level
+    and every place where the code leaves the model) to be recorded on the code and judged there"""
+    C = code_of.__getitem__
+    wjobs = []
+    for f in fam:
+        if not f["mc"]:
+            continue
+        inst = dict(f["mc"], name="c11_" + f["name"], kbd=f["cfg"], keys=[C(k) for k in f["keys"]],
+                    monitor={"module": "P_C11", "params": PATH_PARAMS})
+        r = mc.check_instance(inst, wd, workers=6, timeout=1500)
+        res.add_instance(r)
+        log("[c11] instance %s: %d states, %d edges replayed, drift %d, monitor errors %d, panics %d, tlc %.0fs" %
+            (f["name"], r["states"], r.get("replayed", 0), r.get("drift", 0), r["n_monerr"], r["n_panic"], r["tlc_wall_s"]))
+        ws = flow.witness_scripts(r["monerr_file"], 40) + flow.witness_scripts(r["panic_file"], 10)
+        scripts = [flow.hist_to_script(w["h"], f["T"] + 8) for w in ws]
+        for d in r.get("drift_samples", [])[:300]:
+            scripts.append(flow.hist_to_script(d["h"], f["T"] + 8))
+        if scripts:
+            wjobs.append({"cfg": f["cfg"], "params": PATH_PARAMS, "tag": "w:" + f["name"], "scripts": scripts, "files": f["files"]})
+    return wjobs
 
 
 # ------------------------------------------------------------------ part S
@@ -729,6 +872,34 @@ def run(tier, seed):
                        "monitor": "P_C11"}, "id_%d" % len(res.violations))
     res.samples.append({"identity_script": jobs[30]["scripts"][0], "cfg": jobs[30]["cfg"][:200]})
     log("[c11] identity: %d scripts, %d rejected" % (len(jobs), len(errs)))
+    # ---- part P
+    code_of = {e["n"]: e["c"] for e in t["names"]}
+    fam = path_family(tier, random.Random(seed + 23))
+    wjobs = path_instances(res, tier, fam, wd, code_of)
+    pjobs = shard_local_index(wjobs + path_jobs(tier, random.Random(seed + 29), fam, code_of))
+    perrs = par_validate(res, "P_C11", pjobs, wd, "c11_paths", 6 if tier == "quick" else 10)
+    rejected_cfgs = sorted({e["job"].split("#")[0] for e in perrs if e["err"].startswith("error from the code under test")})
+    if len(rejected_cfgs) > len(fam) // 3:
+        raise ToolError("output-path family: configurations not accepted: %s" % rejected_cfgs)
+    if rejected_cfgs:
+        res.notes.append("output-path configurations not accepted by this tree (skipped): %s" % rejected_cfgs)
+    perrs = [e for e in perrs if not e["err"].startswith("error from the code under test")]
+    seen_cfg = {}
+    for e in sorted(perrs, key=lambda e: len(script_of(pjobs, e["job"], 0)[1])):
+        j, sc = script_of(pjobs, e["job"], 0)
+        name = e["job"].split("#")[0][2:]
+        seen_cfg[name] = seen_cfg.get(name, 0) + 1
+        if seen_cfg[name] > 2:
+            continue
+        tag = ZIPPY_NOTE if name == "zippy" else ""
+        flow.classify(res, pid, e["err"], e["err"] + tag + " path=" + name + " script=" + json.dumps(sc) + " cfg=" + j["cfg"],
+                      {"property": pid, "cfg": j["cfg"], "params": j["params"], "script": sc, "err": e["err"], "files": j.get("files", {}),
+                       "monitor": "P_C11"}, "path_%d" % len(res.violations))
+    res.samples.append({"output_path": fam[1]["name"], "cfg": fam[1]["cfg"], "script": pjobs[-1]["scripts"][0][:20]})
+    res.extra["output_paths"] = {"configurations": [f["name"] for f in fam], "explored_with_L1": [f["name"] for f in fam if f["mc"]],
+                                 "scripts": len(pjobs), "rejected": len(perrs),
+                                 "rejected_by_path": seen_cfg}
+    log("[c11] output paths: %d configurations, %d scripts, %d rejected %s" % (len(fam), len(pjobs), len(perrs), seen_cfg or ""))
     # ---- part S
     cases = intercept_cases(tier, rng, g)
     rs, serrs, lines, failed = check_intercept(wd, cases, g)
@@ -751,9 +922,13 @@ def run(tier, seed):
         "TLC checks spec/KeyTables.tla over constants generated from the working tree: one state per u16 value "
         "(as_u16(from_u16(c)) = c, every KeyCode/OsCode/integer conversion keeps the value), equal discriminant sets of the "
         "two enums (parsed from the source text), every key name of str_to_oscode denotes one code in defsrc / action / "
-        "deflayermap / exception list / defoverrides, nop0..9 = 0x2a4..0x2ad; one press/release of every code that has a "
+        "deflayermap / exception list / defoverrides, nop0..9 = 0x2a4..0x2ad; with and without deflocalkeys-linux blocks (every "
+        "built-in name redefined, the documented blocks, random blocks) the code a name holds in 18 configuration positions "
+        "is a function of (name, block) only (T_LkPositions); one press/release of every code that has a "
         "layout column through the real stepper under unmapped / self / transparent / deflayermap configurations plus random "
-        "overlapping pairs, traces validated by TLC against P_C11; Cfg.mapped_keys of random defsrc / deflayermap / "
+        "overlapping pairs, traces validated by TLC against P_C11; one configuration per output path with a no-op key as the "
+        "emitted key (tap words <= 3, holds, overlaps, random histories; small members explored with L1 || P_C11 and replayed), "
+        "judged by P_C11 I2; Cfg.mapped_keys of random defsrc / deflayermap / "
         "process-unmapped-keys configurations compared by TLC with P_C11.Intercept.  distinct_nontrivial = distinct TLC states.",
         assumptions=["linux code mapping (target_os = linux build of the parser)",
                      "pseudo codes KEY_RESERVED(0), KEY_UNKNOWN(240), KEY_MAX(767) are not keys: excluded from the identity "
@@ -761,6 +936,11 @@ def run(tier, seed):
                      "undefined behaviour of the transmutes is not observable; only its precondition (equal discriminant "
                      "sets) is checked",
                      "names are taken from the string literals of str_to_oscode and its default mapping table",
+                     "key-name positions not observed: zippychord dictionary / defzippy key lists, cmd-output-keys, "
+                     "tap-hold-release-keys style key lists (closures), linux-unicode-u-code",
+                     "names that are action keywords in a layer (mlft, mwu, ...) are not key names in action positions",
+                     "(arbitrary-code n) writes the number the user gave (event kind `code`); it is not a key of kanata's code "
+                     "space and I2 does not apply to it",
                      "deterministic stepper; dev-profile build of the working tree"],
         extra_cov={"tables": tables_cov, "exhaustive": True,
                    "intercept_configs": len(lines), "intercept_generator_rejected": len(failed)})
